@@ -374,6 +374,9 @@ func CorpusOpts(g *mon.Rand, i int, thorough bool, certs []*certurl.AugmentedCer
 	if thorough && i%500 == 7 {
 		o.NEx = 250 + g.Intn(12) // crosses 255/256
 	}
+	if i%307 == 9 {
+		o.NEx = 1025 + g.Intn(1100) // collection sizes that are no CBOR head boundary (above 1024, around 2048)
+	}
 	if i%97 == 5 {
 		o.Big = 1 + g.Intn(2)
 		if o.NEx < o.Big+1 {
